@@ -78,7 +78,53 @@ def parse(pattern):
         return s, cur
 
     def rep():
+        start = pos[0]
         a, b = atom()
+        end_atom = pos[0]
+        if peek() == "{":
+            # counted repetition: re-parse the atom text the required number of times
+            j = p.index("}", pos[0])
+            spec = p[pos[0] + 1:j]
+            pos[0] = j + 1
+            if "," in spec:
+                lo, hi = spec.split(",")
+                lo = int(lo)
+                hi = int(hi) if hi.strip() else None
+            else:
+                lo = hi = int(spec)
+            atom_text = p[start:end_atom]
+
+            def one():
+                save = pos[0]
+                pos[0] = start
+                x = atom()
+                pos[0] = save
+                return x
+
+            s0 = n.new()
+            cur = s0
+            for _ in range(lo):
+                x, y = one()
+                n.eps[cur].add(x)
+                cur = y
+            if hi is None:
+                x, y = one()
+                n.eps[cur].add(x)
+                n.eps[y].add(x)
+                e = n.new()
+                n.eps[cur].add(e)
+                n.eps[y].add(e)
+                cur = e
+            else:
+                e = n.new()
+                n.eps[cur].add(e)
+                for _ in range(hi - lo):
+                    x, y = one()
+                    n.eps[cur].add(x)
+                    cur = y
+                    n.eps[cur].add(e)
+                cur = e
+            a, b = s0, cur
         while peek() is not None and peek() in "?*+":
             op = eat()
             s, e = n.new(), n.new()
@@ -89,8 +135,6 @@ def parse(pattern):
             if op in "*+":
                 n.eps[b].add(a)
             a, b = s, e
-        if peek() == "{":
-            raise ValueError("counted repetition not supported")
         return a, b
 
     def atom():
@@ -133,9 +177,12 @@ def parse(pattern):
             pred = _Pred(anychar=True)
         elif c == "\\":
             d = eat()
-            if d in "dwsDWSbB":
+            if d == "d":
+                pred = _Pred(chars=set("0123456789"))
+            elif d in "wsDWSbB":
                 raise ValueError("escape \\%s not supported" % d)
-            pred = _Pred(chars={d})
+            else:
+                pred = _Pred(chars={d})
         elif c in "^$":
             raise ValueError("inner anchors not supported")
         else:
